@@ -190,7 +190,13 @@ class Recorder:
         rewards = np.asarray([cfg.cf.reward(r) for _, r, _ in batch])
         contexts = np.asarray([x for _, _, x in batch], dtype=float)
         self.calls.append({"op": op, "batch": [[a, r, list(x)] for a, r, x in batch]})
-        getattr(self.mab, op)(decisions, rewards, contexts)
+        try:
+            getattr(self.mab, op)(decisions, rewards, contexts)
+        except Exception as error:  # noqa
+            self.finding("call.exception", "%s raised %s: %s" % (op, type(error).__name__, error),
+                         {"event": len(self.events) + 1, "op": op, "tags": []})
+            self.calls.pop()
+            return
         self.pending_readd = set()
         if op == "fit" or not self.events:
             self.rows = list(batch)
@@ -239,7 +245,12 @@ class Recorder:
         seed = int(gen.randint(INT32_MAX, size=1)[0])
         qg = self.geo_query(x if real is None else real)
         ctx = [list(map(float, x if real is None else real))]
-        result = self.mab.predict_expectations(ctx)
+        try:
+            result = self.mab.predict_expectations(ctx)
+        except Exception as error:  # noqa
+            self.finding("call.exception", "predict_expectations(%s) raised %s: %s" % (ctx, type(error).__name__, error),
+                         {"event": len(self.events) + 1, "q": list(x), "tags": []})
+            return
         after = snapshot(self.mab, rng=False, skip=("arm_to_expectation",) if cfg.lp == "ts" else ())
         where = {"event": len(self.events) + 1, "q": list(x)}
         if after != before:
